@@ -66,21 +66,7 @@ Proof.
   apply (IH (Z.to_nat (t - b))). lia.
 Qed.
 
-(* ---------- microsecond level ---------- *)
-Definition UD : Z := 86400000000.   (* microseconds per day *)
-Definition UH : Z := 3600000000.    (* microseconds per hour *)
-
-Definition trunc (g : gran) (t : Z) : Z :=
-  match g with
-  | Hour => t / UH * UH
-  | _ => truncd g (t / UD) * UD
-  end.
-
-Definition boundary (g : gran) (t : Z) : Prop :=
-  match g with
-  | Hour => t mod UH = 0
-  | _ => t mod UD = 0 /\ startd g (t / UD) = true
-  end.
+(* ---------- microsecond level: UD, UH, trunc, boundary are defined in Base/Calendar.v (models that only need the DEFINITIONS do not load the sweeps) ---------- *)
 
 Lemma trunc_floor g : is_floor (boundary g) (trunc g).
 Proof.
